@@ -6,6 +6,7 @@ import (
 	"net"
 	"sort"
 	"strings"
+	"sync"
 	"time"
 
 	"github.com/codelaboratoryltd/bng/pkg/allocator"
@@ -76,6 +77,7 @@ type sstate struct {
 	st    *fstore
 	da    *allocator.DistributedAllocator
 	calls []*scall
+	bk    sync.Mutex // harness bookkeeping (free-running -race pass)
 }
 
 // ssub maps the digit of a thread op to the structured subscriber id (see subIDs in dist_test.go).
@@ -134,7 +136,9 @@ func (sc sscen) scenario() *sched.Scenario {
 				x.Thread(fmt.Sprintf("T%d", ti), func() {
 					for _, op := range ops {
 						c := &scall{th: ti, op: op, sub: ssub(op)}
+						st.bk.Lock()
 						st.calls = append(st.calls, c)
+						st.bk.Unlock()
 						c.res = sdo(st, op)
 						c.finished = true
 						x.Obs("T%d:%s=%s", ti, op, c.res)
@@ -251,7 +255,9 @@ func checkSsched(st *sstate) []sched.Viol {
 	return vs
 }
 
-func (sc sscen) partName() string { return "sched:" + sc.name + "[" + string(sc.mode) + " " + sc.base + "]" }
+func (sc sscen) partName() string {
+	return "sched:" + sc.name + "[" + string(sc.mode) + " " + sc.base + "]"
+}
 
 func runSched(run *report.Run) {
 	bound := 2
